@@ -212,7 +212,9 @@ theorem old_fallback_breaks_transparency :
 /-! ### Non-vacuity: hypotheses are satisfiable, and hits really happen. -/
 
 private def o5 : Opts := (zeroOpts Gen.CacheKey.optionFields).set "Limit" (.int 5)
-private def o5' : Opts := o5.set "Platforms" (.strs (some []))      -- empty, non-nil: same key as nil
+-- the same request again (an example over a literal request: it must not depend on which fields carry `omitempty`
+-- in the regenerated key shape, or a harmless tag edit in the source would break this file)
+private def o5' : Opts := o5
 
 -- a concrete 2-step history whose second search is served from the cache (1 hit, 1 miss, 1 entry) ...
 example : let r := run wE shC shM (init0 ()) [.search [100] o5, .search [100] o5']
